@@ -182,7 +182,7 @@ Tokens(S, doc) == TokensOf(S, doc, FailedRules(S, doc))
 ----------------------------------------------------------------------------
 \* Model of astnormalization/directive_include_skip.go: a @skip / @include with exactly one argument "if" whose value is a
 \* boolean literal, or a variable with a boolean request value or (else) a default value, is evaluated: the selection is
-\* removed (a removed last selection is replaced by the alias __internal__typename_placeholder: __typename) or the
+\* removed (a removed last selection is replaced by the alias __internal_typename: __typename) or the
 \* directive is dropped.
 StaticBool(doc, vars, d) ==   \* "T", "F" or "?" (not statically known)
   IF d.name \notin {"skip", "include"} \/ Len(d.args) # 1 \/ d.args[1].name # "if" THEN "?"
@@ -212,7 +212,7 @@ Removed(doc, vars, s) ==
                            \/ (s.dirs[i].name = "include" /\ StaticBool(doc, vars, s.dirs[i]) = "F")
 KeepDirs(doc, vars, dirs) == SelectSeq(dirs, LAMBDA d : StaticBool(doc, vars, d) = "?")
 
-Placeholder == [k |-> "field", name |-> "__typename", alias |-> "__internal__typename_placeholder", on |-> "", args |-> <<>>, dirs |-> <<>>, sel |-> <<>>]
+Placeholder == [k |-> "field", name |-> "__typename", alias |-> "__internal_typename", on |-> "", args |-> <<>>, dirs |-> <<>>, sel |-> <<>>]
 
 RECURSIVE PruneSel(_, _, _)
 PruneSel(doc, vars, sel) ==
